@@ -7,6 +7,7 @@ namespace RtenVerif.Gemm
 theorem gemmPath_ok {k : BlockConsts} {kern : KernelCfg} {p : Problem} {path : Path}
     (h : gemmPath k kern p = .ok path) :
     (p.Ka = p.Kb ∧ biasLenBad p.rowBiasLen p.N = false ∧ biasLenBad p.colBiasLen p.M = false ∧
+      biasLenBad p.aQuantLen p.M = false ∧ biasLenBad p.bQuantLen p.N = false ∧
       p.outLen = p.M * p.N) ∧
     ((path = .none ∧ (p.M = 0 ∨ p.N = 0 ∨ p.Ka = 0)) ∨
      (path = .gemv (gemvSchedule k p.N p.Ka p.threads p.bRowStride1) ∧
@@ -28,10 +29,18 @@ theorem gemmPath_ok {k : BlockConsts} {kern : KernelCfg} {p : Problem} {path : P
   rename_i hb2
   split at h
   · cases h
+  rename_i hq1
+  split at h
+  · cases h
+  rename_i hq2
+  split at h
+  · cases h
   rename_i hol
   have hpre : p.Ka = p.Kb ∧ biasLenBad p.rowBiasLen p.N = false ∧
-      biasLenBad p.colBiasLen p.M = false ∧ p.outLen = p.M * p.N := by
-    refine ⟨by omega, by simpa using hb1, by simpa using hb2, by omega⟩
+      biasLenBad p.colBiasLen p.M = false ∧ biasLenBad p.aQuantLen p.M = false ∧
+      biasLenBad p.bQuantLen p.N = false ∧ p.outLen = p.M * p.N := by
+    refine ⟨by omega, by simpa using hb1, by simpa using hb2, by simpa using hq1,
+      by simpa using hq2, by omega⟩
   refine ⟨hpre, ?_⟩
   split at h
   · rename_i hmn
@@ -60,11 +69,12 @@ theorem gemmPath_ok {k : BlockConsts} {kern : KernelCfg} {p : Problem} {path : P
 is never rejected. -/
 theorem gemmPath_valid {k : BlockConsts} {kern : KernelCfg} {p : Problem}
     (hK : p.Ka = p.Kb) (hb1 : biasLenBad p.rowBiasLen p.N = false)
-    (hb2 : biasLenBad p.colBiasLen p.M = false) (hol : p.outLen = p.M * p.N)
+    (hb2 : biasLenBad p.colBiasLen p.M = false) (hq1 : biasLenBad p.aQuantLen p.M = false)
+    (hq2 : biasLenBad p.bQuantLen p.N = false) (hol : p.outLen = p.M * p.N)
     (ha : p.aPacked = none ∨ p.aPacked = some (prepackMeta k kern true p.Ka))
     (hb : p.bPacked = none ∨ p.bPacked = some (prepackMeta k kern false p.Kb)) :
     ∃ path, gemmPath k kern p = .ok path := by
-  simp only [gemmPath, hK, hb1, hb2, hol, ne_eq, not_true_eq_false, if_false, Bool.false_eq_true]
+  simp only [gemmPath, hK, hb1, hb2, hq1, hq2, hol, ne_eq, not_true_eq_false, if_false, Bool.false_eq_true]
   split
   · exact ⟨_, rfl⟩
   split
